@@ -13,6 +13,7 @@ from vlib import cgen, ref
 from vlib.harness import SubCheck, forked, is_open, must, must_raise, require, Violation
 
 PROPERTY_ID = "C05"
+TECHNIQUE = 'round-trip property-based testing (Hypothesis) through real JSON text and files; structural fingerprint + numeric evaluation oracle; probes for open findings'
 RULE = (
     "Hypothesis-generated circuits / circuit lists over all 27 built-ins, numeric and symbolic "
     "custom gate definitions (formal names incl. sympy-shadowing ones), wrapper nestings "
